@@ -70,6 +70,12 @@ def lower_unit(u, outdir):
                 f.ctor_as_method = True
             if t.get('truncate_after'):
                 f.truncate_after = t['truncate_after']
+            if t.get('skeleton'):
+                f.skeleton = True
+            if t.get('keep_until'):
+                f.keep_until = tuple(t['keep_until'])
+                f.export_locals = t.get('export_locals', [])
+                f.region_return = t.get('region_return')
             if t.get('keep_top'):
                 f.keep_top = [tuple(x) for x in t['keep_top']]
                 f.export_locals = t.get('export_locals', [])
